@@ -273,7 +273,21 @@ func c16Case(c *core.Ctx, r *core.Rand, idx int, lines *[]string, impls *[]strin
 			return nb.Build(), nil
 		}
 	}
-	cfg := &traversal.Config{LinkSystem: lsys, LinkTargetNodePrototypeChooser: func(datamodel.Link, linking.LinkContext) (datamodel.NodePrototype, error) {
+	// blocks are loaded into the generic prototype, or into the kind-specific basicnode prototype of the block's root
+	byKind := r.Chance(1, 3)
+	cfg := &traversal.Config{LinkSystem: lsys, LinkTargetNodePrototypeChooser: func(l datamodel.Link, _ linking.LinkContext) (datamodel.NodePrototype, error) {
+		if byKind {
+			if cl, ok := l.(cidlink.Link); ok {
+				if bv, ok := blocks[string(cl.Cid.Bytes())]; ok {
+					switch bv.K {
+					case '{':
+						return basicnode.Prototype.Map, nil
+					case '[':
+						return basicnode.Prototype.List, nil
+					}
+				}
+			}
+		}
 		return basicnode.Prototype.Any, nil
 	}}
 	beforeTerm := termOf(root)
@@ -457,6 +471,27 @@ func c16Walking(c *core.Ctx, r *core.Rand) error {
 	// replacing the matched ints — the positions WalkMatching reports for the same selector (C07) — changes exactly those
 	g := &core.Graph{Blocks: map[string][]byte{}, Vals: map[string]core.Val{}, Root: v}
 	spec := core.GenSelector(r, g, 0, false, false)
+	if r.Chance(1, 8) {
+		// directed: a wide list under a fields clause naming many of its elements (the names are strings, the list's own
+		// segments are ints), alone or inside a union
+		wide := core.Val{K: '['}
+		for i := 0; i < 10+r.Intn(8); i++ {
+			wide.L = append(wide.L, core.Int(int64(i)))
+		}
+		fields := core.Val{K: '{'}
+		for _, i := range r.Perm(len(wide.L))[:7+r.Intn(len(wide.L)-7)] {
+			fields.M = append(fields.M, core.KV{K: []byte(strconv.Itoa(i)), V: core.Map(core.KV{K: []byte("."), V: core.Map()})})
+		}
+		spec = core.Map(core.KV{K: []byte("f"), V: core.Map(core.KV{K: []byte("f>"), V: fields})})
+		if r.Bool() {
+			spec = core.Map(core.KV{K: []byte("|"), V: core.List(spec, core.Map(core.KV{K: []byte("."), V: core.Map()}))})
+		}
+		v = wide
+		g.Root = v
+		if n, err = core.BuildBasic(v, nil); err != nil {
+			return err
+		}
+	}
 	if specHasSubset(spec) {
 		return nil
 	}
